@@ -5,7 +5,7 @@ From Coq Require Import ZArith QArith Qreduction List.
 From GV Require Import model.AggFn.
 Extraction "extract/aggfn_model.ml"
   AggFn.result_tree AggFn.run_tree AggFn.flatten AggFn.nn AggFn.both Qreduction.Qred
-  AggFn.count_agg AggFn.sum_chk AggFn.sum_f AggFn.avg_i AggFn.avg_f AggFn.avg_dec
+  AggFn.count_agg AggFn.sum_chk AggFn.sum_f AggFn.avg_i AggFn.avg_f AggFn.avg_dec AggFn.sum_u64 AggFn.avg_u64
   AggFn.regr_avgx AggFn.regr_avgy AggFn.var_agg AggFn.covar_agg AggFn.corr_agg AggFn.regr_r2_agg
   AggFn.regr_slope_agg AggFn.min_agg AggFn.max_agg AggFn.first_agg AggFn.bool_and_agg AggFn.bool_or_agg
   AggFn.bit_and_agg AggFn.bit_or_agg AggFn.string_agg
